@@ -119,3 +119,26 @@ PROPS["C04"] = dict(
     trusted_base=BASE + [CSEM, CSTUBS, A3, A4],
     assumptions=[A3, A4],
 )
+
+
+TLSX = "tls.py::Context."
+A5 = "A5: callbacks stored in Context fields (update_traffic_key_cb, alpn_cb, new_session_ticket_cb, get_session_ticket_cb) are external code: they do not re-enter or write the Context; they may raise (modelled as CallbackError)"
+A6 = "A6: signature validity is an uninterpreted predicate sig_ok(certificate, signature, signed data, parameters); public_key.verify raises InvalidSignature exactly when it is false; the signed data is an uninterpreted function of (transcript bytes, role string); MAC values are arbitrary byte strings (the adversary may make every comparison succeed)"
+TLS_STUBS = "trusted stubs in contracts/tls_state.py (assumed, never verified): the tls.py message parsers pull_* / serializers push_* (arbitrary well-typed message, may raise anything except being silent about it), KeySchedule / KeyScheduleProxy methods (transcript = bytes fed to update_hash; extract increments generation), verify_certificate, signature_algorithm_params, decode_public_key, _signature_algorithms_for_private_key, _build_session_ticket, the `cryptography` / ssl / os / struct calls, the C Buffer model (contracts/buffer_model.py)"
+
+PROPS["C11"] = dict(
+    functions=[
+        TLSX + "__init__", TLSX + "handle_message", TLSX + "_handle_reassembled_message",
+        TLSX + "_set_state", TLSX + "_setup_traffic_protection", TLSX + "_check_certificate_verify_signature", TLSX + "_set_peer_certificate",
+        TLSX + "_client_handle_hello", TLSX + "_client_handle_encrypted_extensions", TLSX + "_client_handle_certificate_request",
+        TLSX + "_client_handle_certificate", TLSX + "_client_handle_certificate_verify", TLSX + "_client_handle_finished",
+        TLSX + "_client_handle_new_session_ticket",
+        TLSX + "_server_expect_finished", TLSX + "_server_handle_certificate", TLSX + "_server_handle_certificate_verify", TLSX + "_server_handle_finished",
+    ],
+    bounded=[],
+    scope="decided for all 13 states x all integer message types x all message contents and all histories (class invariant): (1) dispatch: _handle_reassembled_message raises AlertUnexpectedMessage exactly for the (state, type) pairs outside the RFC 8446 A.1/A.2 table (code points from RFC 8446 section 4; nothing after the handshake except NewSessionTicket on the client), and then state, key schedule object and transcript, traffic keys, key-release log, peer certificate, resumption / verification flags are all unchanged (no handler ran); any other failure concerns a legal message and does not advance the state; a processed message moves the state exactly along the RFC transition relation; handle_message never dispatches before the ClientHello was sent. (2) transitions: every handler is entered only in its state(s), never raises the unexpected-message alert itself, changes the state only as its last effect; CLIENT_EXPECT_FINISHED is entered only by _client_handle_certificate_verify after _check_certificate_verify_signature returned, which it does exactly when the algorithm was advertised and the signature verifies under the certificate the server sent over the transcript with the server role string (raises AlertDecryptError exactly otherwise), or by _client_handle_encrypted_extensions when _session_resumed, which _client_handle_hello sets only when a PSK had been offered (_key_schedule_psk present) and the ServerHello selected identity 0. (3) key release: update_traffic_key_cb invocations are logged in order; per handler the log grows by exactly: ServerHello (DECRYPT,HANDSHAKE); EncryptedExtensions (ENCRYPT,HANDSHAKE); client Finished (DECRYPT,ONE_RTT),(ENCRYPT,ONE_RTT) and server-side Finished (DECRYPT,ONE_RTT), both only after the received verify_data equalled the expected one (also on every failure path); Certificate / CertificateRequest / CertificateVerify / NewSessionTicket release nothing",
+    lemma="Class invariant H of tls.Context, established by __init__ and preserved by every verified method on normal AND exceptional exit: H1 state in {CLIENT_EXPECT_FINISHED, CLIENT_POST_HANDSHAKE} => g_cv_ok or _session_resumed; H2 client and _session_resumed => g_psk_sel (PSK offered and selected); H5 g_cv_ok false before a CertificateVerify was accepted; H7 POST_HANDSHAKE => peer Finished matched. g_cv_ok is DEFINED (ghost_exit) as the outcome of the RFC 4.4.3 check on the entry transcript, so a handler that reaches CLIENT_EXPECT_FINISHED without a passing check violates H1/H5. Since the dispatcher is the only caller of the handlers and refuses everything outside the table without side effects, every history (any order, omission, repetition of the server flight, with arbitrary MAC outcomes) that ends in CLIENT_POST_HANDSHAKE passed a verified CertificateVerify or an offered-and-selected PSK, then a matching Finished; application read keys appear in the key log only in the Finished handlers after the match",
+    not_decided="Context._server_handle_hello (228 lines: its contract - state SERVER_EXPECT_CERTIFICATE/FINISHED, key schedule present, flags kept - is ASSUMED at the dispatcher, so the server-side key-release order and H for the server's first step are not proved) and Context._client_send_hello (assumed at handle_message: state CLIENT_EXPECT_SERVER_HELLO, flags kept; that _key_schedule_psk is set exactly when a PSK is put into the ClientHello is by inspection); HelloRetryRequest (unsupported by the code); the QUIC side (connection._update_traffic_key, HandshakeCompleted); that the MAC / signature primitives are sound (A6). H4/H6 (server-side analogue) are refuted for _server_handle_certificate on an exception path: recorded finding",
+    trusted_base=BASE + [TLS_STUBS, A5, A6],
+    assumptions=[A2, A5, A6],
+)
